@@ -16,6 +16,13 @@ theorem consts_ok_resume_never_saved : Generated.RESUME_SAVE_CALLS_IN_ENGINE = 0
     relative paths only (regenerated from src/sync/mod.rs) -/
 theorem consts_ok_cache_root_key : Generated.DIRCACHE_ROOT_KEY = "." := by decide
 
+/-- a database row is believed only when path, mtime (seconds AND nanoseconds) and size all match
+    (the WHERE clause of `get_checksum`, regenerated from src/sync/checksumdb.rs): `Db.lookup`
+    compares the full nanosecond mtime and the size -/
+theorem consts_ok_db_lookup_guards :
+    Generated.CHECKSUMDB_LOOKUP_GUARDS = "path = ?1 AND mtime_secs = ?2 AND mtime_nanos = ?3 AND size = ?4" := by
+  decide
+
 /-! ### directory cache: the substitution is unreachable -/
 
 /-- one more run: the cache is updated from that run's scan -/
